@@ -89,11 +89,11 @@ var checks = []checkDef{
 		StateMeasure: layerAStates, Assumptions: layerAAssume, RealStub: layerAReal,
 		MustProbe: []string{"enum_cases", "io_shell_ready", "io_attempts"}},
 	{ID: "C13", Engine: "pinsim", Level: "exploration", QuickMS: 40000, ThoroughMS: 600000, SelftestRuns: 100,
-		Rule:         "one evaluation = one simulated run (one synctest bubble): 4-10 HTTPS servers with keys from a pool (self-signed, chains of length 1-3 with the pinned key at leaf, intermediate or root position, chains that validate against the harness root and chains that do not, expired), and a history of 2-12 calls to the real simpleshell.Go through http.DefaultTransport pointed at the in-memory network, with every fingerprint spelling (plain, sha256// prefix, unpadded, wrong length, non-base64, hex, of another server, one bit flipped, none) and overlapping lifetimes (a harness Shell keeps each call streaming until the simulator ends it), connection resets; every run starts after one finished pinned call to a canary server, so that hidden process-wide state shows in the first run too; distinct = hash of (configuration, action sequence); non-trivial = at least two different call configurations, or a malformed or wrong fingerprint",
+		Rule:         "one evaluation = one simulated run (one synctest bubble): 4-10 HTTPS servers with keys from a pool (self-signed, chains of length 1-3 with the pinned key at leaf, intermediate or root position, chains that validate against the harness root and chains that do not, expired), and a history of 2-12 calls to the real simpleshell.Go through http.DefaultTransport pointed at the in-memory network, with every fingerprint spelling (plain, sha256// prefix, unpadded, wrong length, non-base64, hex, of another server, one bit flipped, none) and overlapping lifetimes (a harness Shell keeps each call streaming until the simulator ends it), connection resets; calls may use a name of their own or share the server's own host name and port (as a real process's calls to one curlrevshell do: TLS session caches and keep-alive connections are keyed by it), and a call allowed earlier is often followed by one to the same host with a wrong pin; every run starts after one finished pinned call to a canary server, so that hidden process-wide state shows in the first run too; distinct = hash of (configuration, action sequence); non-trivial = at least two different call configurations, or a malformed or wrong fingerprint",
 		StateMeasure: "states = per call (class, spelling, matched chain roles, server kind, chain length, allowed, overlapped, after-pinned, faulted, success)",
-		Assumptions:  []string{"servers offer only http/1.1", "ordinary validation = x509 verification of the presented chain against the harness root for the host name at the bubble's epoch", "a fingerprint that decodes to 32 bytes only under lenient/unpadded base64 is not judged for success or refusal (only the traffic rule applies)", "http.DefaultClient.Transport and the DefaultTransport seam are reset at both ends of every run so that runs are independent"},
+		Assumptions:  []string{"servers offer only http/1.1", "ordinary validation = x509 verification of the presented chain against the harness root for the host name at the bubble's epoch", "a fingerprint that decodes to 32 bytes only under lenient/unpadded base64 is not judged for success or refusal (only the traffic rule applies)", "http.DefaultClient.Transport and the DefaultTransport seam are reset at both ends of every run so that runs are independent", "a dial to a shared host name is attributed to the call set going in that step (one call is set going per step and the bubble is quiescent before the next)"},
 		RealStub:     map[string]string{"real": "simpleshell.Go, TLSFingerprintVerifier, http.DefaultClient, http.DefaultTransport and its clones, crypto/tls both sides, crypto/x509, net/http server", "stub": "network (simnet), clock (synctest), the Shell implementation, the curlrevshell side (record-and-echo handler), certificate authorities and chains"},
-		MustProbe:    []string{"overlapping_calls", "pin_at_intermediate", "pin_at_root", "unpinned_call_after_pinned", "valid_chain_unpinned_ok", "malformed_fp", "wrong_pin"}},
+		MustProbe:    []string{"overlapping_calls", "pin_at_intermediate", "pin_at_root", "unpinned_call_after_pinned", "valid_chain_unpinned_ok", "malformed_fp", "wrong_pin", "wrong_pin_after_good_pin_same_host", "shared_host_again", "wrong_pin_after_unpinned_same_host"}},
 	{ID: "C14", Engine: "cmdshellsim", Level: "exploration", Workers: 8, GOMAXPROCS: 2, QuickMS: 40000, ThoroughMS: 600000, SelftestRuns: 100,
 		Rule:        "one evaluation = one real child process run through simpleshell.CmdShell under a generated plan: the child is a puppet (the worker binary re-executed) that writes counted patterns to stdout/stderr, closes descriptors, reads stdin to EOF, waits on observed states and exits with a chosen code; the input reader and the consumer of Output() follow seeded chunk sizes and gates on observed states (child reaped, Go returned, input done), never on sleeps; distinct = hash of the plan; non-trivial = the plan has a gate, a child-side wait, a non-zero exit or more than 4096 bytes of traffic. A plan that shows a violation is run four more times to tell a plan that always fails from an intermittent one",
 		Assumptions: []string{"real kernel processes and pipes: not a simulation; the verdict of the oracle is schedule-independent, so a miss is possible but a false alarm is not", "Linux /proc and FIONREAD on pipes; kernel pipe buffer >= 64 KiB (plans keep un-consumed output below 60000 bytes when the consumer waits for the child's exit)", "not bit-replayable: the replay file is the plan and reproduces through its observed-state gates"},
